@@ -82,7 +82,11 @@ __CPROVER_ensures((long)OLD(CELL(p, ADD_S(p))) + (long)OLD(ADD_C(p)) > INT_MAX |
 __CPROVER_ensures(DATA(p)[OLD(BASE(p)) + OLD(ADD_T(p))] >= 0) /*@C01,C05,C20*/
 __CPROVER_ensures(POST_CUR(p)) /*@C03*/
 __CPROVER_ensures(POST_FR(p)) /*@C19,C03*/
-__CPROVER_ensures(NAT_G(p)) /*@C20,C03*/;
+__CPROVER_ensures(NAT_G(p)) /*@C20,C03*/
+/* reachability of the cases (each must FAIL) */
+__CPROVER_ensures((long)OLD(CELL(p, ADD_S(p))) + (long)OLD(ADD_C(p)) <= INT_MAX) /*@CANARY*/
+__CPROVER_ensures((long)OLD(CELL(p, ADD_S(p))) + (long)OLD(ADD_C(p)) > 0) /*@CANARY*/
+__CPROVER_ensures((long)OLD(CELL(p, ADD_S(p))) + (long)OLD(ADD_C(p)) <= 0 || (long)OLD(CELL(p, ADD_S(p))) + (long)OLD(ADD_C(p)) > INT_MAX) /*@CANARY*/;
 
 /* -------------------------------------------------------------- TEST */
 _Bool c_step_TEST(void *p)
@@ -129,7 +133,10 @@ __CPROVER_ensures(__CPROVER_return_value == 0) /*@C06*/
 __CPROVER_ensures(IP(p) == (OLD(CELL(p, JC_S(p))) == 0 ? OLD(IP(p)) + OLD(P_(p, PI_jmpc_offset)) : OLD(IP(p)) + 1)) /*@C01,C05,C06*/
 __CPROVER_ensures(POST_CUR(p)) /*@C03*/
 __CPROVER_ensures(POST_FR(p)) /*@C19,C03*/
-__CPROVER_ensures(NAT_G(p)) /*@C20,C03*/;
+__CPROVER_ensures(NAT_G(p)) /*@C20,C03*/
+/* reachability of the cases (each must FAIL) */
+__CPROVER_ensures(OLD(CELL(p, JC_S(p))) == 0) /*@CANARY*/
+__CPROVER_ensures(OLD(CELL(p, JC_S(p))) != 0) /*@CANARY*/;
 
 /* -------------------------------------------------------------- PREPARE_EXEC */
 _Bool c_step_PREPARE_EXEC(void *p)
